@@ -363,6 +363,8 @@ func runC04(c *Ctx) {
 		ri := len(resources) - 1
 		for _, src := range []string{"Patient.name.given.distinct()", "Patient.name.given.distinct().first()", "Patient.name.given.distinct().last()", "Patient.name.given.distinct().take(5)", "Patient.name.given.distinct().count()",
 			"Patient.name.given.distinct().skip(10).first()", "Patient.name.select(%v.take(1))", "Patient.name.select(%v.take(2))", "Patient.name.given.select(%v.skip(1).take(1))", "Patient.name.select(%v.take(1)).count()",
+			"%big.where($this > 0).first()", "%big.where($this > 0).take(3)", "%big.where($this mod 2 = 0)[10]", "%big.select($this + 1).last()", "%big.where($this > 500).first()", "%big.distinct().skip(700).first()",
+			"%big.where($this > 0).count()", "%big.exists($this = 999)", "%big.all($this > 0)", "%big.skip(300).take(2)", "%big.tail().first()", "%big.where($this > 0) = %big",
 			"%v.select(%v.take(1))", "%v", "%v.last()", "%v.count()", "%v.tail()", "%v.take(1) & 'x'", "%v.skip(2).take(1) & %v.last()", "Patient.name.given.intersect(%v)", "%v.intersect(Patient.name.given)", "%v.exclude(%v.take(1))",
 			"%v.where($this != %v.first())", "%v.distinct()", "%v.isDistinct()", "Patient.name.given.exclude(%v)", "1.0 / 3.0", "1.0 / 3.00000000000000000000", "2.0 / 7.0", "10 / 3", "(1.0 / 3.0).toString()", "1.0 / 3.0 = 2.0 / 6.0",
 			"1.00000000000000000001 * 3", "7.0 div 0.30000000000000000001", "1 / 3.0000000000000000000000001", "(10.0 / 3).round(3)"} {
@@ -375,15 +377,27 @@ func runC04(c *Ctx) {
 	}
 	shared := system.Collection{system.Integer(1), fhir.String("s"), system.String("t"), fhir.Code("u"), system.Integer(1)}
 	sharedBefore := snapshotSlice(shared)
+	big := make(system.Collection, 1000)
+	for i := range big {
+		big[i] = system.Integer(i + 1)
+	}
 	evalJob := func(j job) string {
 		o := safeEval(func() (system.Collection, error) {
-			return j.e.Evaluate([]fhir.Resource{resources[j.ri]}, evalopts.EnvVariable("v", shared), evalopts.OverrideTime(fixedNow))
+			return j.e.Evaluate([]fhir.Resource{resources[j.ri]}, evalopts.EnvVariable("v", shared), evalopts.EnvVariable("big", big), evalopts.OverrideTime(fixedNow))
 		})
 		return canonOutcome(o, nil)
 	}
 	want := make([]string, len(jobs))
 	for i, j := range jobs {
 		want[i] = evalJob(j)
+	}
+	// large collections keep their order (whatever an implementation does to process them faster)
+	expected := map[string]string{"%big.where($this > 0).first()": "ok:[I:1]", "%big.where($this > 0) = %big": "ok:[B:true]", "%big.where($this > 500).first()": "ok:[I:501]", "%big.select($this + 1).last()": "ok:[I:1001]",
+		"%big.where($this mod 2 = 0)[10]": "ok:[I:22]", "%big.skip(300).take(2)": "ok:[I:301,I:302]", "%big.distinct().skip(700).first()": "ok:[I:701]", "%big.where($this > 0).take(3)": "ok:[I:1,I:2,I:3]", "%big.where($this > 0).count()": "ok:[I:1000]"}
+	for i, j := range jobs {
+		if w, ok := expected[j.src]; ok {
+			c.Law(want[i] == w, "C04/order-of-items", "the items of a result come in the order of the input, for collections of any size", j.src+" with %big = 1..1000", want[i]+" want "+w)
+		}
 	}
 	// evaluated again, after all the others, in the reverse order: the same results
 	for i := len(jobs) - 1; i >= 0; i-- {
@@ -484,7 +498,9 @@ func runC04(c *Ctx) {
 	in := []fhir.Resource{resources[0]}
 	o := compileEval("now() = now() and today() = today() and timeOfDay() = timeOfDay()", in)
 	c.Law(canonOutcome(o, nil) == "ok:[B:true]", "C04/two-instants", "now(), today(), timeOfDay() denote one instant within an evaluation", "now() = now() …", canonOutcome(o, nil))
-	for _, t := range []time.Time{fixedNow, time.Date(1999, 12, 31, 23, 59, 59, 999000000, time.UTC), time.Date(2030, 6, 1, 0, 0, 0, 0, time.FixedZone("", -11*3600))} {
+	for _, t := range []time.Time{fixedNow, time.Date(1999, 12, 31, 23, 59, 59, 999000000, time.UTC), time.Date(2030, 6, 1, 0, 0, 0, 0, time.FixedZone("", -11*3600)),
+		// the extremes and the zero value of time.Time are override values like any other
+		{}, time.Date(1, 1, 1, 5, 30, 0, 0, time.FixedZone("", 5*3600+1800)), time.Unix(0, 0).UTC(), time.Date(9999, 12, 31, 23, 59, 59, 999000000, time.UTC), time.Date(1, 1, 1, 0, 0, 0, 1000000, time.UTC)} {
 		e := fhirpath.MustCompile("now().toString() & '|' & today().toString() & '|' & timeOfDay().toString()")
 		r, err := e.Evaluate(in, evalopts.OverrideTime(t))
 		wantS := t.Format("2006-01-02T15:04:05.000Z07:00") + "|" + t.Format("2006-01-02") + "|" + t.Format("15:04:05.000")
